@@ -9,6 +9,10 @@
 //!                                      of the site indexer (not a reader) for every complete site
 //!   cramc data cap script chunk        cram::io::Reader::new(src).read_container until Ok(0) / Err, on
 //!                                      the containers after the file header
+//!   csih  data cap script chunk        noodles_csi::io::reader::index::read_header (the header reader of
+//!                                      tabix / of the CSI aux block): Ok:<header>|consumed or Err:<kind>
+//!                                      (where the stream stands after an error inside the names block
+//!                                      is not compared: the reader stops early there)
 //! obs = result (canonical value or Err:<kind>) | bytes the reader took from the source minus what is
 //! still buffered.  verdict: obs (and for bcfr the Debug rendering of every record) equals the one
 //! obtained from the plain slice.
@@ -212,6 +216,52 @@ fn cram_obs(r: &mut dyn BufRead) -> String {
     }
 }
 
+fn csih_obs(r: &mut dyn BufRead) -> String {
+    use noodles_csi::binning_index::index::header::{Format, format::CoordinateSystem};
+    let mut rr = r;
+    match guarded(AssertUnwindSafe(|| noodles_csi::io::reader::index::read_header(&mut rr))) {
+        Outcome::Panicked(_) => "Panic".into(),
+        Outcome::Done(Ok(h)) => {
+            let names: Vec<Vec<u8>> = h.reference_sequence_names().iter().map(|n| n.to_vec()).collect();
+            let f = match h.format() {
+                Format::Generic(CoordinateSystem::Gff) => "g",
+                Format::Generic(CoordinateSystem::Bed) => "b",
+                Format::Sam => "s",
+                Format::Vcf => "v",
+            };
+            format!(
+                "Ok:{f}:{}:{}:{}:{}:{}:{}",
+                h.reference_sequence_name_index(),
+                h.start_position_index(),
+                h.end_position_index().map(|e| e.to_string()).unwrap_or_else(|| "-".into()),
+                h.line_comment_prefix(),
+                h.line_skip_count(),
+                fmt_list(",", &names, |n| if n.is_empty() { ".".into() } else { hex(n) })
+            )
+        }
+        Outcome::Done(Err(e)) => {
+            // an I/O error keeps its kind; every other variant is invalid data
+            let mut cur: Option<&(dyn std::error::Error + 'static)> = Some(&e);
+            let mut kind = "InvalidData".to_string();
+            while let Some(x) = cur {
+                if let Some(ioe) = x.downcast_ref::<std::io::Error>() {
+                    kind = nv::errkind(ioe);
+                    break;
+                }
+                cur = x.source();
+            }
+            format!("Err:{kind}")
+        }
+    }
+}
+
+/// like `both`, but the byte count is kept only after a success
+fn both_ok_pos(data: &[u8], cap: usize, script: Vec<Deliver>, f: &dyn Fn(&mut dyn BufRead) -> String) -> (String, String) {
+    let (o, p) = both(data, cap, script, f);
+    let strip = |s: String| if s.starts_with("Ok:") { s } else { s.split('|').next().unwrap().to_string() };
+    (strip(o), strip(p))
+}
+
 fn verdict(obs: String, plain: String, tag: &str, nontrivial: bool) -> Obs {
     if obs != plain {
         return Obs::fail(obs, tag, format!("plain slice gives {plain}"));
@@ -221,7 +271,7 @@ fn verdict(obs: String, plain: String, tag: &str, nontrivial: bool) -> Obs {
 
 pub fn run(c: &Case) -> Option<Obs> {
     let k = c.kind.as_str();
-    if !matches!(k, "gzir" | "bair" | "fair" | "bcfr" | "cramc") {
+    if !matches!(k, "gzir" | "bair" | "fair" | "bcfr" | "cramc" | "csih") {
         return None;
     }
     let data = c.b(0);
@@ -240,6 +290,10 @@ pub fn run(c: &Case) -> Option<Obs> {
         "fair" => {
             let (o, p) = both(&data, cap.max(1), script, &fai_obs);
             verdict(o, p, "fai-reader-chunking-dependent", nontrivial)
+        }
+        "csih" => {
+            let (o, p) = both_ok_pos(&data, cap, script, &csih_obs);
+            verdict(o, p, "csi-header-reader-chunking-dependent", nontrivial)
         }
         "bcfr" => {
             let d1 = std::cell::RefCell::new(Vec::new());
@@ -342,6 +396,72 @@ fn cram_container_part(rng: &mut Rng) -> Vec<u8> {
     r.get_ref().to_vec()
 }
 
+/// the bytes read_header consumes: six i32 fields, l_nm, the names block -- well formed, or with an
+/// invalid field, duplicate / unterminated / empty names, l_nm larger or smaller than the block,
+/// truncated, with a tail
+fn gen_csi_header(rng: &mut Rng) -> Vec<u8> {
+    let mut f = Vec::new();
+    let mut i32le = |f: &mut Vec<u8>, v: i64| f.extend_from_slice(&(v as i32).to_le_bytes());
+    let bad = rng.chance(1, 6);
+    let format: i64 = if bad && rng.chance(1, 3) {
+        *rng.pick(&[3i64, 0x20000, -1, 0x10001, 65536 * 7])
+    } else {
+        *rng.pick(&[0i64, 0x10000, 1, 2])
+    };
+    i32le(&mut f, format);
+    let col = |rng: &mut Rng| -> i64 {
+        if rng.chance(1, 12) { *rng.pick(&[0i64, -1, i32::MIN as i64]) } else { rng.range(1, 9) as i64 }
+    };
+    let sq = col(rng);
+    let bg = col(rng);
+    i32le(&mut f, sq);
+    i32le(&mut f, bg);
+    let en = if format == 1 || format == 2 {
+        if rng.chance(1, 8) { rng.range(1, 5) as i64 } else { 0 }
+    } else if rng.chance(1, 3) {
+        bg
+    } else {
+        col(rng)
+    };
+    i32le(&mut f, en);
+    let meta = if rng.chance(1, 10) { *rng.pick(&[256i64, -1, 1000]) } else { *rng.pick(&[35i64, 0, 255, 64]) };
+    i32le(&mut f, meta);
+    let skip = if rng.chance(1, 12) { -1 } else { rng.below(5) as i64 };
+    i32le(&mut f, skip);
+    let mut block = Vec::new();
+    let nn = rng.below(5);
+    for i in 0..nn {
+        let name: Vec<u8> = match rng.below(8) {
+            0 => Vec::new(),
+            1 => b"chr0".to_vec(),
+            2 => vec![0xe9, b'x'],
+            _ => format!("chr{i}_{}", rng.below(3)).into_bytes(),
+        };
+        block.extend_from_slice(&name);
+        block.push(0);
+    }
+    if rng.chance(1, 8) {
+        block.extend_from_slice(b"open");
+    }
+    let l_nm = match rng.below(8) {
+        0 => block.len() as i64 + rng.range(1, 20) as i64,
+        1 => (block.len() as i64 - rng.range(1, 6) as i64).max(0),
+        2 if rng.chance(1, 3) => -1,
+        _ => block.len() as i64,
+    };
+    i32le(&mut f, l_nm);
+    f.extend_from_slice(&block);
+    if rng.chance(1, 3) {
+        let n = rng.range(1, 12) as usize;
+        f.extend(rng.bytes(n));
+    }
+    if rng.chance(1, 5) {
+        let k = rng.below(f.len() as u64 + 1) as usize;
+        f.truncate(k);
+    }
+    f
+}
+
 pub fn generate(rng: &mut Rng, thorough: bool, w: &mut CaseWriter) {
     let raw_caps = [0usize, 0, 0, 1, 2, 3, 5, 7, 16, 64, 4096];
     let buf_caps = [1usize, 2, 3, 5, 7, 16, 64, 4096];
@@ -371,6 +491,13 @@ pub fn generate(rng: &mut Rng, thorough: bool, w: &mut CaseWriter) {
         }
         let f = maybe_malform(rng, &f);
         push3(w, rng, "fair", f, &buf_caps);
+    }
+    for _ in 0..n {
+        let f = gen_csi_header(rng);
+        let wi = rng.chance(1, 3);
+        let script = random_script(rng, f.len(), wi);
+        let chunk = *rng.pick(&[1usize, 7, 32, 8192]);
+        w.push("csih", vec![hex(&f), rng.pick(&raw_caps).to_string(), fmt_script(&script), chunk.to_string()]);
     }
     let nb = if thorough { 600 } else { 60 };
     for _ in 0..nb {
